@@ -1,0 +1,15 @@
+//go:build verif
+
+package avfs
+
+// VerifLockHook, when non-nil, is called immediately before every mutex acquisition of the in-memory
+// file systems and of the in-memory identity manager (verification builds only).
+// mu is a pointer to the sync.RWMutex about to be acquired, write tells Lock from RLock.
+var VerifLockHook func(mu any, write bool) //nolint:gochecknoglobals // Verification hook.
+
+// VerifBeforeLock announces a mutex acquisition to the verification scheduler.
+func VerifBeforeLock(mu any, write bool) {
+	if h := VerifLockHook; h != nil {
+		h(mu, write)
+	}
+}
